@@ -173,7 +173,15 @@ class DiameterAssociation(object):
 
     def recv_message_from_queue(self) -> None:
         while not self._stop_threads and self.transport:
-            self.transport._recv_data_available.wait(timeout=1)
+            #: close() drops self.transport at any moment, also between two 
+            #: statements of this loop: work on the object taken here (an 
+            #: AttributeError on None would end this thread with the 
+            #: association lock held).
+            transport = self.transport
+            if transport is None:
+                break
+
+            transport._recv_data_available.wait(timeout=1)
 
             self.lock.acquire()
 
@@ -184,10 +192,10 @@ class DiameterAssociation(object):
             #: The transport thread appends to the stream while this thread 
             #: takes it: without the lock, bytes appended between the copy 
             #: and the reset below would be lost.
-            with self.transport._recv_lock:
-                data_stream = self._recv_remainder + copy.copy(self.transport._recv_data_stream)
-                self.transport._recv_data_stream = b""
-                self.transport._recv_data_available.clear()
+            with transport._recv_lock:
+                data_stream = self._recv_remainder + copy.copy(transport._recv_data_stream)
+                transport._recv_data_stream = b""
+                transport._recv_data_available.clear()
 
             #: TCP delivers a byte stream, not messages: a read may end in 
             #: the middle of a Diameter message. Only complete messages are 
